@@ -79,7 +79,21 @@ opcodes = {
 }
 
 
-def PackInteger(v):
+def PackInteger(v, signed=False):
+    """Pack an integer as LEB128. Negative values, and every value if
+    ``signed`` is set, use the signed variant of the encoding."""
+    if v < 0 or signed:
+        output = []
+        while True:
+            b = v & 0x7F
+            v >>= 7
+            # We are done once the remaining bits are nothing but the sign
+            # extension of bit 6 of the byte we are about to write
+            if (v == 0 and not (b & 0x40)) or (v == -1 and (b & 0x40)):
+                output.append(b)
+                return bytes(output)
+            output.append(b | 0b1000_0000)
+
     if v == 0:
         return bytes([0])
     blockCount = math.ceil(v.bit_length() / 7)
@@ -93,8 +107,8 @@ def PackInteger(v):
     return bytes(output)
 
 
-def WriteInteger(output: BinaryIO, i: int):
-    output.write(PackInteger(i))
+def WriteInteger(output: BinaryIO, i: int, signed=False):
+    output.write(PackInteger(i, signed))
 
 
 def PackFloat(v):
@@ -369,8 +383,10 @@ class Instruction:
         WriteByte(output, self.__opcode)
         # TODO Handle non-integer arguments
         if self.__args:
+            # Constants are signed LEB128, everything else (indices) unsigned
+            signed = self.__opcode == opcodes["i32.const"]
             for arg in self.__args:
-                WriteInteger(output, arg)
+                WriteInteger(output, arg, signed)
 
 
 class Code:
